@@ -49,7 +49,7 @@ PROPS = {
     "C09": dict(engine="sim", quick=60, thorough=900, level="fault_enumeration"),
     "C06": dict(engine="sim", quick=60, thorough=900, level="exploration"),
     "C16": dict(engine="sim", quick=60, thorough=1200, level="fault_enumeration"),
-    "C13": dict(engine="race", quick=45, thorough=600, level="exploration"),
+    "C13": dict(engine="race", quick=45, thorough=600, level="exploration", gomaxprocs=4),
     "C18": dict(engine="sim", quick=30, thorough=600, level="exploration"),
 }
 DEFAULT_SEED = {"quick": 20260926, "thorough": 20260927}
@@ -87,6 +87,8 @@ def run_workers(binary, specs, gomaxprocs, watchdog_s):
         env["VERIF_SPEC"] = sp["_specfile"]
         env["VERIF_SCRATCH"] = os.path.dirname(sp["_specfile"])
         env["GOMAXPROCS"] = str(sp.get("_gomaxprocs", gomaxprocs))
+        if binary.endswith("race.test"):
+            env["GORACE"] = "log_path=%s halt_on_error=0" % (sp["_specfile"] + ".race")
         lf = open(sp["_specfile"] + ".log", "w")
         p = subprocess.Popen([binary, "-test.run", "^TestWorker$", "-test.timeout", "0", "-test.count", "1"],
                              env=env, stdout=lf, stderr=subprocess.STDOUT, cwd=os.path.dirname(sp["_specfile"]))
